@@ -44,6 +44,31 @@ D = {
  "C20-r2-m2": ("C20", "the bail-out branches print a warning with eprintln!", "a cut plus a failing stderr (ENOSPC)"),
  "C20-r2-m3": ("C20", "after a degree time-out the signal-assignment pass estimates missing degrees from syntax", "a degree cut plus a `<--` whose expression contains a local holding a non-constant"),
 }
+
+D.update({
+ "C01-r3-m1": ("C01", "shift_l tests `right < top` instead of `<=` while shift_r keeps `<=`: for a count of exactly p/2 the two delegate to each other forever", "a constant `<<` by exactly (p-1)/2 or `>>` by (p+1)/2 for the prime of the chosen curve"),
+ "C01-r3-m2": ("C01", "the 10 s time box reads the wall clock (SystemTime) and expects it never to go backwards", "CLOCK_REALTIME stepping backwards between the start reading and an end-of-pass check"),
+ "C01-r3-m3": ("C01", "--allow matching slices the report id to the length of the allow entry", "an allow entry longer than the id of a report that reaches the filter (CS0005 vs P1004 / CA01)"),
+ "C02-r3-m1": ("C02", "an unreadable file gets a label at its first include site instead of a label-less error", "a named file that cannot be read and is also included through a file that is not named; the per-file filter then drops the report"),
+ "C02-r3-m2": ("C02", "desugaring drops, without a report, every template that instantiates an already dropped template anonymously", "a broken template in an included-only file, a named template using it anonymously, and a hash order visiting the broken one first"),
+ "C02-r3-m3": ("C02", "the source file is read with a single read(2) into a buffer sized by st_size", "a short read (or st_size 0) with the cut where the preceding text still parses"),
+ "C03-r3-m1": ("C03", "the allow list is binary-searched; the stdout copy is sorted, the SARIF copy is not", "--sarif-file, two --allow ids in non-ascending order, a finding with the missed id"),
+ "C03-r3-m2": ("C03", "SARIF conversion drops results whose rule id and primary span were already seen", "two displayed findings of one rule at one span (two unused outputs of one component)"),
+ "C03-r3-m3": ("C03", "main returns `No issues found.` early when the file library holds no user input", "every named file fails to load (missing, dangling link, not UTF-8) so that only label-less errors were displayed"),
+ "C14-r3-m1": ("C14", "the first element-wise array write in a scope restarts the version counter", "an uninitialised array whose first writes occur in two sibling branches"),
+ "C14-r3-m2": ("C14", "the phi argument update stops at the first duplicate version", "a join with three predecessors, one variable with the same version on two of them, a second phi'd variable, phi order by hash"),
+ "C14-r3-m3": ("C14", "visited marks persist across join nodes in the dominance-frontier walk", "a loop nested in a conditional branch with code after the conditional"),
+ "C17-r3-m1": ("C17", "a definition whose lifting already failed is skipped before its cached error is written", "a template that cannot be lifted, instantiated by another user template that is analysed first (hash order)"),
+ "C17-r3-m2": ("C17", "side-effect reports are de-duplicated by plain variable name while iterating a HashMap of SSA versions", "a variable with one unread version and one read-but-side-effect-free version"),
+ "C17-r3-m3": ("C17", "include resolutions memoised by include string only", "two files in different directories with the same relative include naming different files"),
+ "C19-r3-m1": ("C19", "-L entries are collected into a HashSet before they are registered", "two libraries that can both satisfy one include; the hash seed decides the search order"),
+ "C19-r3-m2": ("C19", "entries of a directory argument are no longer canonicalised one by one", "a directory input containing a *.circom symlink to a file in another directory"),
+ "C19-r3-m3": ("C19", "the version-pragma error is propagated with `?` before includes and definitions are recorded", "a file with an unsupported pragma that has includes or definitions that matter"),
+ "C20-r3-m1": ("C20", "on time-out the values are 'flushed' once more with a phi rule that ignores arguments without a value", "a value cut and a loop-carried variable whose entry value is constant"),
+ "C20-r3-m2": ("C20", "a debug_assert! after the value loop that one more pass finds nothing new", "a value cut before the converging pass, in a build with debug assertions"),
+ "C20-r3-m3": ("C20", "the deadline check moves to the start of each pass and the bail-out message divides the elapsed time by the pass count", "the time box expiring before the first pass (division by zero)"),
+})
+
 matrix = {}
 mp = "/verif/seeded/MATRIX.txt"
 if os.path.exists(mp):
